@@ -22,6 +22,16 @@ CHECKS = {
          "(Model/Validate.v) is tied to codegen-v2.ts on every run by differential correspondence; the spec side (no_extra) is "
          "evaluated on the implementation's own answers to search for a failing input.",
          "Values are finite trees without getters/proxies, integer-like or duplicate keys; custom formats are pure."),
+ "C13": ("Theorems: C13_writer_is_sha256 — for every sequence of writes (all chunkings, block boundaries, both padding branches, "
+         "the 64-bit length field) the streaming Hash256Writer returns FIPS 180-4 SHA-256 of the concatenation, by an invariant "
+         "over the write list; the constants regenerated from hash.ts equal the FIPS constants; hash256() of every tree = "
+         "SHA-256(encoding); the encoding and hash() are independent of property order, mapping order, format order and "
+         "descriptions (all trees); alias-boundary independence is refuted with a witness (cycle ids). The clauses 'real SHA-256' "
+         "(against node:crypto), renaming/alias/order/description independence and 'different behaviour => different digest' are "
+         "additionally searched on the implementation over generated trees, variants and single-field mutants.",
+         "processChunk is shared by the writer model and the FIPS spec (validated by NIST vectors and node:crypto, not proved); "
+         "unique decodability of the encoding is not proved; alpha-equivalence is checked, not proved; localeCompare is modelled as "
+         "code-unit order on ASCII constants."),
  "C12": ("Theorems: at most ten errors (all trees); at least one error for every rejected value outside the two known call "
          "sites (tuple without rest given surplus items; empty intersection) — C12_at_least_one_except_known, by induction "
          "over the fuel of reportDecodeError for all trees/values; refutations with witnesses (no error; JSON.stringify of a "
